@@ -420,20 +420,20 @@ def families(tier):
     F.append(fam("noprov-plain-nocache", [T_NOPROV, T_PLAIN2], cap=0))
     # provide tables (cache disabled so that only the provide races are in play)
     F.append(fam("inj-inj-nocache", [T_INJ, T_INJ2], cap=0))
-    F.append(fam("failp-wrap-nocache", [T_FAILP, T_WRAP], cap=0))
+    F.append(fam("failp-wrap-nocache", [T_FAILP, T_WRAP], cap=0, istep=2))
     F.append(fam("plain-inj-nocache", [T_PLAIN, T_INJ], cap=0))
-    F.append(fam("pfail-inj-nocache", [T_PFAIL, T_INJ], cap=0))
+    F.append(fam("pfail-inj-nocache", [T_PFAIL, T_INJ], cap=0, istep=2))
     F.append(fam("sib-failp-nocache", [T_SIB, T_FAILP], cap=0))
     F.append(fam("faildeep-inj-nocache", [T_FAILDEEP, T_INJ], cap=0, istep=2))
     F.append(fam("twokeys-failp-nocache", [T_TWOKEYS, T_FAILP], cap=0))
     # template cache
     F.append(fam("lru1-hit-miss", [T_PLAIN, T_PLAIN2], cap=1, pre=[("pl", 1)]))
     F.append(fam("lru2-hit-hit", [T_PLAIN, T_PLAIN2], cap=2, pre=[("pl", 1), ("pm", 1)]))
-    F.append(fam("lru2-miss-miss", [T_PLAIN, T_PLAIN2], cap=2))
-    F.append(fam("lru1-same-miss", [T_PLAIN, T_PLAIN], cap=1))
+    F.append(fam("lru2-miss-miss", [T_PLAIN, T_PLAIN2], cap=2, istep=2))
+    F.append(fam("lru1-same-miss", [T_PLAIN, T_PLAIN], cap=1, istep=2))
     F.append(fam("lru1-first-compile-nest", [T_NEST, T_PLAIN2], cap=1, pre=[("pm", 1)], ns=False, budget=0.5, istep=3))
     # everything together (default cache size, all templates compiled)
-    F.append(fam("inj-plain-cached", [T_INJ, T_PLAIN], cap=128, pre=all_pre([T_INJ, T_PLAIN]), budget=0.5))
+    F.append(fam("inj-plain-cached", [T_INJ, T_PLAIN], cap=128, pre=all_pre([T_INJ, T_PLAIN]), budget=0.5, istep=2))
     # lazy class data
     F.append(fam("media-first-access", [T_MEDIA, T_MEDIA], nested=False))
     F.append(fam("media-first-access-nested", [T_MEDIA, T_MEDIA], nested=True))
@@ -727,18 +727,19 @@ def label_codes_cached():
 
 def job_enum2(args):
     """all schedules X^i Y^j X* Y* for one (family, X, Y, i)."""
-    family, x, y, i, maxj, third = args
+    family, x, y, i, maxj, third = args[:6]
+    step = args[6] if len(args) > 6 else 1
     e = env()
     keymap = family_keymap(family)
     names = [NAMES[k] for k in range(len(family["threads"]))]
     out = []
     rest = [(n, BIG) for n in names if n not in (x, y)]
-    for j in range(1, maxj + 1):
+    for j in range(1, maxj + 1, step):
         if third is None:
             rec = run_rec(e, family, names, [(x, i), (y, j), (x, BIG), (y, BIG)] + rest, keymap)
             out.append(rec)
         else:
-            for k in range(1, third + 1):
+            for k in range(1, third + 1, step):
                 rec = run_rec(e, family, names, [(x, i), (y, j), (x, k), (y, BIG), (x, BIG)] + rest, keymap)
                 out.append(rec)
                 if sum(1 for t in rec["trace"] if t[0] == x) < i + k:
@@ -781,9 +782,10 @@ def plan_jobs(family, solo, tier, rng):
             for i in range(0, n[x] + slack, 1 if thorough else family.get("istep", 1)):
                 jobs.append(("enum", (family, x, y, i, n[y] + slack, None)))
         if thorough:
+            # 3 pre-emptions: X^i Y^j X^k Y* X* on a grid (i every 3rd, j and k every 2nd up to 30 actions)
             for x, y in pairs:
-                for i in range(1, n[x] + 2, 2 if b < 1 else 1):
-                    jobs.append(("enum", (family, x, y, i, min(n[y] + 2, 40), min(n[x] + 2, 40))))
+                for i in range(1, n[x] + 2, 3):
+                    jobs.append(("enum", (family, x, y, i, min(n[y] + 2, 30), min(n[x] + 2, 30), 2)))
     else:
         # three threads: X^i Y^j Z^k then drain, a grid; plus pairs at coarser steps
         step = 2 if thorough else 3
